@@ -5,6 +5,7 @@ import (
 	"strings"
 
 	"github.com/smarthome-go/homescript/v3/homescript/errors"
+	"github.com/smarthome-go/homescript/v3/homescript/lexer"
 	"github.com/smarthome-go/homescript/v3/homescript/lexer/util"
 	"github.com/smarthome-go/homescript/v3/homescript/parser/ast"
 )
@@ -697,8 +698,8 @@ type ObjectTypeField struct {
 
 func (self ObjectTypeField) String() string {
 	var key string
-	if util.IsIdent(self.FieldName.Ident()) {
-		key = fmt.Sprintf("\"%s\"", self.FieldName.Ident())
+	if !lexer.IsIdent(self.FieldName.Ident()) {
+		key = fmt.Sprintf("\"%s\"", util.EscapeString(self.FieldName.Ident()))
 	} else {
 		key = self.FieldName.Ident()
 	}
